@@ -1,5 +1,5 @@
 (* C10 — mutator and getter histories behave like a plain set/map model. *)
-From UL Require Import Bytes Subtags LangId Ext Likely Inst Ops LocaleInv AbstractLocale OpsProofs InvProofs TablesData OpsInvProofs RefineProofs.
+From UL Require Import Bytes Subtags LangId Ext Likely Inst Ops LocaleInv AbstractLocale OpsProofs InvProofs TablesData OpsInvProofs RefineProofs RoundTrip CanonLocale CanonLocaleProofs.
 From Coq Require Import String.
 
 (* a call that returns an error (malformed key, value, attribute or tag) leaves the value unchanged *)
@@ -53,9 +53,22 @@ Proof.
   intros ops l H. destruct (normalize_abstract l H) as [E Hok]. rewrite <- E at 1. apply refine_run. exact Hok.
 Qed.
 
+(* ... hence after EVERY step of EVERY history the value re-parses from its own string to itself and prints
+   canonical text (C05 / C04 on all reachable states) *)
+Theorem C10_reparse_history : forall ops s steps, loc_inv s = true -> run the_tables s ops = Some steps ->
+  Forall (fun p => locale_from_bytes (loc_to_string (fst p)) = Ok (fst p)
+                   /\ canon_locale_strict (loc_to_string (fst p)) = true) steps.
+Proof.
+  intros ops s steps Hs Hr. pose proof (run_inv the_tables data_full_extend data_wf_ints ops s steps Hs Hr) as H.
+  rewrite forallb_forall in H. apply Forall_forall. intros p Hp. specialize (H p Hp). split.
+  - apply locale_roundtrip. exact H.
+  - apply loc_to_string_canonical. exact H.
+Qed.
+
 Print Assumptions C10_refines_step.
 Print Assumptions C10_refines.
 Print Assumptions C10_inv.
+Print Assumptions C10_reparse_history.
 Print Assumptions C10_inv_history.
 Print Assumptions C10_no_unspec.
 Print Assumptions C10_history_defined.
